@@ -153,10 +153,12 @@ def replay_inline(cell, args):
     try:
         ok = bool(fn(cell.params, dict(args)))
     except Exception as e:
+        # the harness captures exceptions of the code under test itself; anything escaping the
+        # harness function is a defect of the harness, never a violation
         import traceback
-        err = '%s: %s' % (type(e).__name__, e)
+        err = 'harness raised %s: %s' % (type(e).__name__, e)
         Ctx.info['traceback'] = traceback.format_exc()
-        ok = False
+        ok = None
     info = {k: conc(v) for k, v in Ctx.info.items()}
     return {'ok': ok, 'error': err, 'info': info, 'docs': list(Ctx.docs),
             'nontrivial': Ctx.nontrivial}
